@@ -16,7 +16,7 @@ WATCHDOG = {"quick": 1200, "thorough": 3300}
 REQUIRED_CLASSES = {t: ["coll:from>to", "coll:from<to", "coll:negative_loads", "coll:range_mean_form", "coll:extra_index_level",
                         "bins:int", "bins:edges", "bins:interval_index", "bins:single", "bins:irregular", "value_on_edge",
                         "rebin:single_target", "rebin:same_binning", "rebin:finer", "rebin:coarser", "rebin:irregular",
-                        "rebin:int_target", "combine:overlapping", "operand:series"]
+                        "rebin:int_target", "rebin:integer_counts", "rebin:source_from_range_histogram", "combine:overlapping", "operand:series"]
                     for t in ("quick", "thorough")}
 REQUIRED_MONITORS = ["identities:upper/lower/amplitude/mean/R", "from_to==range_mean", "scale", "shift", "range_histogram:total",
                      "histogram:total", "range_histogram==marginal", "rebin:total_conserved", "rebin:identity", "rebin:composes",
@@ -220,12 +220,23 @@ def _irregular_hist(rng, k=None, lo=None):
     vals = np.round(rng.uniform(0, 100, k), 1)
     if rng.random() < 0.3:
         vals[int(rng.integers(0, k))] = 0.0
+    if rng.random() < 0.4:
+        vals = rng.integers(0, 40, k).astype(np.int64)          # integer counts, as LoadCollective.range_histogram returns them
     return pd.Series(vals, index=pd.IntervalIndex.from_breaks(edges), name="cycles"), edges
 
 
 def _case_rebin(ctx, rng):
     from pylife.utils.histogram import rebin_histogram
     h, edges = _irregular_hist(rng)
+    if rng.random() < 0.25:
+        # the natural pipeline: collective -> range_histogram (integer counts) -> rebin
+        df, fr, to = _collective(rng, ctx, extra=False)
+        k0 = int(rng.integers(2, 7))
+        h = df.load_collective.range_histogram(k0).to_pandas()
+        edges = np.append(h.index.left[0], h.index.right)
+        ctx.tag("rebin:source_from_range_histogram")
+    if h.dtype.kind in "iu":
+        ctx.tag("rebin:integer_counts")
     total = float(h.sum())
     ctx.nontrivial(len(h) >= 2)
     lo, hi = edges[0], edges[-1]
